@@ -426,10 +426,21 @@ func c05LongSums(c *Ctx, idx int) {
 	if r.Chance(30) {
 		n = 2 + r.Intn(600)
 	}
+	if idx%10 == 4 {
+		// block sizes of accumulation strategies: around 2^12, 2^13, 2^14, 2^16 and odd sizes between
+		n = gen.Pick(r, []int{4095, 4097, 8191, 8192, 8193, 8194, 10000, 16383, 16385, 20000, 32769, 40002, 65535, 65537, 70000})
+		if c.Tier == "thorough" && idx%100 == 4 {
+			n = gen.Pick(r, []int{131073, 262145, 1000001})
+		}
+	}
 	var els []string
 	mant := func() int { return gen.Pick(r, []int{1, 1, 2, 3, 7, 10, 25, 99, 12345}) }
 	for len(els) < n {
 		k := gen.Pick(r, []int{-40, -20, -2, 0, 3, 17, 30, 35, 36, 40, 60, 100, 300, 6000, -6000})
+		if n > 3000 {
+			// (the reference adds exact rationals: keep their size moderate on long arrays)
+			k = gen.Pick(r, []int{-40, -20, -2, 0, 3, 17, 30, 36, 40, 60})
+		}
 		left := n - len(els)
 		ln := 2 + r.Intn(150)
 		last := ln >= left
@@ -474,7 +485,11 @@ func c05LongSums(c *Ctx, idx int) {
 	if idx%3 == 1 {
 		mode, route = decimalMode, "decimal128"
 	}
-	for _, text := range []string{"sum(xs)", "avg(xs)", "sum(xs) == sum(reverse(reverse(xs)))", "[sum(xs[:-1]), xs[-1]]"} {
+	exprs := []string{"sum(xs)", "avg(xs)", "sum(xs) == sum(reverse(reverse(xs)))", "[sum(xs[:-1]), xs[-1]]"}
+	if n > 3000 {
+		exprs = exprs[:2]
+	}
+	for _, text := range exprs {
 		if idx%3 == 2 && text == "sum(xs)" {
 			// the same numbers written as a literal
 			text = "sum(`[" + strings.Join(els, ",") + "]`)"
